@@ -133,6 +133,9 @@ func NewApp(db dbm.DB, o Options) *app.App {
 	return app.NewApp(log.NewNopLogger(), db, nil, true, appOptions(o), opts...)
 }
 
+// Accounts are the lab accounts of an option set.
+func Accounts(o Options) []Acct { return makeAccts(o) }
+
 func makeAccts(o Options) []Acct {
 	var as []Acct
 	for i := 0; i < o.NAccts; i++ {
